@@ -1795,6 +1795,9 @@ class Chord:
         """
         chord_str = f"({self.element_to_str()}{self.extension_to_str()}{self.tonality_to_str()})"
         if self.octave != 0:
+            if self.tonality is None and str(self.extension) == '':
+                # (I).o(k) would be read as the degree symbol's own .o(), which builds the explicit root position I['5']
+                chord_str = f"({self.element_to_str()}[''])"
             chord_str = f"{chord_str}.o({self.octave})"
 
         return chord_str
